@@ -2,7 +2,7 @@
 import gen
 import msggen
 
-QUICK = ["msg1004", "msg1013", "msg1017", "msg1057", "msg1060", "msg1033", "msg1008", "msg1302"]
+QUICK = ["msg1013", "msg1017", "msg1057", "msg1060", "msg1033", "msg1008"]
 
 
 class Lay:
